@@ -729,7 +729,9 @@ def domain(fx: Fixture, ent, attr, cur):  # pylint: disable=too-many-return-stat
         from geoh5py.data import DataAssociationEnum as E
         if cur is E.OBJECT:
             raise Skip("OBJECT-associated data: another association would change the expected value count")
-        return _others([E.VERTEX, E.CELL, E.FACE], cur), base
+        # the holder is a closed curve with as many cells as vertices: VERTEX <-> CELL keeps the value count
+        # (FACE / OBJECT would not be valid for these values)
+        return _others([E.VERTEX, E.CELL], cur), base
     if attr == "association" and fx.kind == "pg":
         from geoh5py.data import DataAssociationEnum as E
         return _others([E.VERTEX, E.CELL, E.OBJECT], cur), base
